@@ -90,7 +90,8 @@ func main() {
 	)
 	flag.Var(&fnNames, "fn", "harness function name (repeatable)")
 	flag.Var(&params, "param", "harness parameter name=value (repeatable)")
-	var ufs strList
+	var ufs, noops strList
+	flag.Var(&noops, "noop", "replace this function (full name) by a no-op returning zero values (repeatable)")
 	flag.Var(&ufs, "uf", "summarise this function (full name) as an uninterpreted function (repeatable)")
 	flag.Parse()
 	if *pkgPat == "" || len(fnNames) == 0 {
@@ -121,7 +122,7 @@ func main() {
 		Dir:        *repo,
 		Overlay:    overlay,
 		BuildFlags: []string{"-tags=gosym"},
-		Env:     append(os.Environ(), "GOFLAGS=-mod=mod", "GOPROXY=off", "GOSUMDB=off", "GOTOOLCHAIN=local", "CGO_ENABLED=0"),
+		Env:        append(os.Environ(), "GOFLAGS=-mod=mod", "GOPROXY=off", "GOSUMDB=off", "GOTOOLCHAIN=local", "CGO_ENABLED=0"),
 	}
 	pkgs, err := packages.Load(cfg, *pkgPat)
 	if err != nil {
@@ -180,6 +181,10 @@ func main() {
 		c.UFs = map[string]bool{}
 		for _, u := range ufs {
 			c.UFs[u] = true
+		}
+		c.Noops = map[string]bool{}
+		for _, u := range noops {
+			c.Noops[u] = true
 		}
 		c.PanicIsViolation = !*noPanic
 		c.UnwindIsViolation = *unwViol
